@@ -543,6 +543,28 @@ type PostProcessor interface{ PostProcess(pc *PostCtx) }
 
 type PostCtx struct{ r *runner }
 
+// Counters returns a copy of the aggregated counters.
+func (pc *PostCtx) Counters() map[string]int {
+	pc.r.a.mu.Lock()
+	defer pc.r.a.mu.Unlock()
+	out := make(map[string]int, len(pc.r.a.counters))
+	for k, v := range pc.r.a.counters {
+		out[k] = v
+	}
+	return out
+}
+
+// DropCounters removes bookkeeping counters (by prefix) from the evidence.
+func (pc *PostCtx) DropCounters(prefix string) {
+	pc.r.a.mu.Lock()
+	defer pc.r.a.mu.Unlock()
+	for k := range pc.r.a.counters {
+		if strings.HasPrefix(k, prefix) {
+			delete(pc.r.a.counters, k)
+		}
+	}
+}
+
 func (pc *PostCtx) Workdir() string                    { return pc.r.workdir }
 func (pc *PostCtx) Violate(sig, detail string, c int)  { pc.r.a.addViolation(pc.r.p.ID()+"/"+sig, detail, c) }
 func (pc *PostCtx) Count(key string, n int)            { pc.r.a.mu.Lock(); pc.r.a.counters[key] += n; pc.r.a.mu.Unlock() }
